@@ -235,7 +235,7 @@ def job_shapes(args):
     for kind in ('none', 'edges', 'centres', 'labels'):
         if shape == () and kind != 'none':
             continue
-        rkinds = ['dataset-same-bins', 'dataset-no-bins', 'ndarray', 'int', 'float']
+        rkinds = ['dataset-same-bins', 'dataset-no-bins', 'ndarray', 'int', 'float', 'ndarray-extra-dim']
         if kind == 'none' and shape != ():
             rkinds += ['dataset-edges', 'dataset-centres']      # left operand without bins, right operand with bins
         for rkind in rkinds:
@@ -249,6 +249,10 @@ def job_shapes(args):
                     right = make_ds(shape, rkind.split('-')[1], 'R', offset=1.0)
                 elif rkind == 'ndarray':
                     right = np.arange(1, (int(np.prod(shape)) if shape else 1) + 1, dtype=float).reshape(shape) - 2.5
+                elif rkind == 'ndarray-extra-dim':
+                    # an array that numpy would broadcast the dataset UP to: (2,) + shape.  The result cannot keep the bins of
+                    # the left operand: either the operation is refused (ValueError) or the result is a well-formed dataset
+                    right = np.arange(1, 2 * (int(np.prod(shape)) if shape else 1) + 1, dtype=float).reshape((2,) + tuple(shape)) - 2.5
                 else:
                     right = -2 if rkind == 'int' else -0.5
                 sleft = snap(left)
@@ -258,12 +262,17 @@ def job_shapes(args):
                 try:
                     res = apply_op(op, left, right)
                 except Exception as exc:  # pylint: disable=broad-except
+                    if rkind == 'ndarray-extra-dim' and isinstance(exc, ValueError):
+                        rep.counters['refused_operand_of_larger_shape'] += 1
+                        rep.case(nontrivial=(shape, kind, rkind, op), outcome=('shape', rkind, 'refused'))
+                        continue
                     rep.violate(f'C08|raises|{type(exc).__name__}|{tag}', f'{op} raised {exc!r}', case)
                     continue
                 rep.case(nontrivial=(shape, kind, rkind, op), outcome=('shape', rkind, op))
                 for prob in wellformed(res):
                     rep.violate(f'C08|ill-formed|{tag}', prob, case)
-                if np.shape(res.value) != tuple(shape):
+                exp_shape = tuple(shape) if rkind != 'ndarray-extra-dim' else (2,) + tuple(shape)   # plain numpy broadcasting
+                if np.shape(res.value) != exp_shape:
                     rep.violate(f'C08|shape|{tag}', f'result shape {np.shape(res.value)}', case)
                 if not bins_equal(res.bins, left.bins):
                     rep.violate(f'C08|bins-not-kept|{tag}', f'result bins {dict(res.bins)!r}, left operand {dict(left.bins)!r}', case)
